@@ -45,6 +45,10 @@ set_option maxRecDepth 1000000 in
 /-- arrays, String objects and arguments objects the language creates behave as ES5 15.4.5 / 15.5.5 / 10.6 say -/
 theorem behaviours_eq_model : ∀ kv ∈ Model.behaviours, Spec.assoc kv.1 dump.behaviours = some kv.2 := by decide +kernel
 
+set_option maxRecDepth 1000000 in
+/-- every constructor, driven through [[Call]] and [[Construct]] by every route, creates what ES5 prescribes -/
+theorem routes_eq_spec : ∀ kv ∈ Spec.routes, Spec.assoc kv.1 dump.routes = some kv.2 := by decide +kernel
+
 /-! corollaries: the property for this configuration -/
 
 /-- every (owner, property) of ES5 §15 outside the deviation regions has exactly the specified shape -/
